@@ -120,6 +120,8 @@ def describe(name: str, t: Any) -> Dict[str, Any]:
     kind = ns[0]
     if ds[0] in ("decimal", "date", "category") and kind in ("object", "str"):
         kind = ds[0]
+    if kind.startswith("other") and "decimal" in str(t).lower():
+        kind = "decimal"                       # polars Decimal(precision, scale)
     nat = getattr(t, "type", None)
     mod = type(nat).__module__ if nat is not None else ""
     if kind == "datetime" and (getattr(t, "tz", None) is not None or getattr(t, "time_zone", None) is not None
